@@ -11,6 +11,11 @@ Correspondence    : the real env.reset / env.step / env.get_reward are driven th
                     scaled integers -- nothing numeric is recomputed in Coq except min / 0-1 products / sums.
 Spec-on-impl      : on every run the property's specification is evaluated on the implementation's own
                     observables, inside Coq (tag 6) and independently here with exact rationals.
+Repeated episodes : two episodes one after the other / stepped alternately on the SAME instance tensors (and on the
+                    same TensorDict object) must each behave like a fresh run and leave the caller's tensors
+                    bit-identical (Coq: Env/SelectionStore.v, store model with reset-allocates / step-clones refines
+                    the row model for every schedule; the aliasing variants are refuted).  Hand-built instances carry
+                    every key the env's generator emits (looked up at run time, fail-closed).
 Search            : when the correspondence or a proof breaks, further instances around the disagreeing case,
                     all admitted orders of more tiny instances and a larger random sample go through the
                     python specification; a failing case is reported with a replay.
@@ -67,6 +72,48 @@ def canon_done(done, r):
     if len(set(v)) != 1:
         return None
     return bool(v[0])
+
+
+# ------------------------------------------------------------------------------------------------ instance format
+# Hand-built instances must be legal inputs for any code that accepts generator output: same keys, same dtypes,
+# same ranks as `env.generator(batch_size=...)` emits on this tree (looked up at run time).  Fail-closed: a key
+# the generator emits and the harness does not build, or builds with another dtype, breaks the correspondence.
+HARNESS_KEYS = {"flp": ("locs", "orig_distances", "distances", "chosen", "to_choose"),
+                "mcp": ("membership", "weights", "n_sets_to_choose"),
+                "dpp": ("locs", "probe", "action_mask"),
+                "mdpp": ("locs", "probe", "action_mask")}
+RANK_FREE = {("flp", "to_choose")}     # documented [B,1] and the generator's [B] are both driven on purpose
+FORMAT_PROBLEMS = {}                   # env name -> message (reported once through ctx.broken)
+_SCHEMA = {}
+
+
+def generator_schema(envname, env):
+    key = (envname, id(type(env.generator)))
+    if key not in _SCHEMA:
+        g = env.generator(batch_size=[2])
+        _SCHEMA[key] = {k: (str(v.dtype), v.dim()) for k, v in g.items()}
+    return _SCHEMA[key]
+
+
+def check_instance_format(envname, env, td):
+    """compare a hand-built instance TensorDict with what the env's own generator emits"""
+    try:
+        sch = generator_schema(envname, env)
+    except Exception as e:
+        FORMAT_PROBLEMS.setdefault(envname, "generator could not be called for the format check: %s: %s" % (type(e).__name__, str(e)[:200]))
+        return False
+    mine = {k: (str(v.dtype), v.dim()) for k, v in td.items()}
+    unknown = sorted(set(sch) - set(HARNESS_KEYS[envname]))
+    missing = sorted(set(sch) - set(mine))
+    extra = sorted(set(mine) - set(sch))
+    wrong = sorted("%s: harness %s rank %d, generator %s rank %d" % (k, mine[k][0], mine[k][1], sch[k][0], sch[k][1])
+                   for k in set(sch) & set(mine)
+                   if mine[k][0] != sch[k][0] or (mine[k][1] != sch[k][1] and (envname, k) not in RANK_FREE))
+    if unknown or missing or extra or wrong:
+        FORMAT_PROBLEMS.setdefault(envname, "generator emits keys the harness does not know %s; missing in hand-built instances %s; "
+                                   "not emitted by the generator %s; dtype/rank differs %s" % (unknown, missing, extra, wrong))
+        return False
+    return True
 
 
 # ------------------------------------------------------------------------------------------------ python specification
@@ -180,62 +227,93 @@ def pick_actions(rng, masks, plans, k):
     return acts, dev
 
 
-def drive(torch, env, td, rng, plans, obs_fn, extra_steps, max_steps):
-    """rl4co's rollout loop on a batch: step while not td["done"].all() (plus `extra_steps` afterwards while
-    every row still has something to choose).  Returns per-row records."""
-    B = td.batch_size[0]
-    rows = [{"acts": [], "obs": [], "deviated": False, "forced": 0} for _ in range(B)]
-    obs0 = [obs_fn(td, r) for r in range(B)]
-    shapes = set()
-    extra = 0
-    raw_done = []
-    crash = None
-    for k in range(max_steps):
+class Roll:
+    """rl4co's rollout loop on a batch, one iteration per call of step(): step while not td["done"].all() (plus
+    `extra_steps` afterwards while every row still has something to choose).  Several Rolls can be stepped
+    alternately (interleaved rollouts on the same instance)."""
+
+    def __init__(self, torch, env, td, rng, plans, obs_fn, extra_steps, max_steps):
+        self.torch, self.env, self.td, self.rng, self.plans, self.obs_fn = torch, env, td, rng, plans, obs_fn
+        self.extra_steps, self.max_steps = extra_steps, max_steps
+        self.B = td.batch_size[0]
+        self.rows = [{"acts": [], "obs": [], "deviated": False, "forced": 0} for _ in range(self.B)]
+        self.obs0 = [obs_fn(td, r) for r in range(self.B)]
+        self.shapes = set()
+        self.extra = 0
+        self.raw_done = []
+        self.crash = None
+        self.k = 0
+        self.live = True
+
+    def step(self):
+        """one loop iteration; False when the loop has ended"""
+        torch, td, B, rows = self.torch, self.td, self.B, self.rows
+        if not self.live or self.k >= self.max_steps:
+            self.live = False
+            return False
+        k = self.k
         all_done = bool(td["done"].all())
         if all_done:
-            if extra >= extra_steps:
-                break
-            extra += 1
+            if self.extra >= self.extra_steps:
+                self.live = False
+                return False
+            self.extra += 1
         masks = td["action_mask"].tolist()
         if not all(any(m) for m in masks):
-            break
-        acts, dev = pick_actions(rng, masks, plans, k)
+            self.live = False
+            return False
+        acts, dev = pick_actions(self.rng, masks, self.plans, k)
         i_before = td["i"].reshape(B, -1)[:, 0].tolist()
         td.set("action", torch.tensor(acts, dtype=torch.int64))
         try:
-            td = env.step(td)["next"]
+            td = self.env.step(td)["next"]
         except Exception as e:      # every action was inside the mask: the property says this never raises
-            crash = {"step": k + 1, "actions": acts, "error": "%s: %s" % (type(e).__name__, str(e)[:300]),
-                     "actions_so_far": [list(r["acts"]) for r in rows]}
+            self.crash = {"step": k + 1, "actions": acts, "error": "%s: %s" % (type(e).__name__, str(e)[:300]),
+                          "actions_so_far": [list(r["acts"]) for r in rows]}
             for r in range(B):
                 rows[r]["deviated"] = True      # cut
-            break
-        shapes.add(tuple(td["done"].shape))
-        raw_done.append((i_before, td["done"].reshape(B, -1).tolist()))
+            self.live = False
+            return False
+        self.td = td
+        self.shapes.add(tuple(td["done"].shape))
+        self.raw_done.append((i_before, td["done"].reshape(B, -1).tolist()))
         for r in range(B):
             rows[r]["acts"].append(acts[r])
             rows[r]["deviated"] |= dev[r]
             rows[r]["forced"] += 1 if sum(masks[r]) == 1 else 0
-            rows[r]["obs"].append(obs_fn(td, r))
-    for r in range(B):
-        last_done = rows[r]["obs"][-1]["done"] if rows[r]["obs"] else False
-        first_done = next((k for k, o in enumerate(rows[r]["obs"], 1) if o["done"]), None)
-        if rows[r]["deviated"]:
-            ending = 3
-        elif last_done and first_done == len(rows[r]["acts"]):
-            ending = 0
-        elif last_done and len(rows[r]["acts"]) - first_done <= extra:
-            ending = 1          # continued on purpose by the harness
-        elif last_done:
-            ending = 4          # continued because rl4co's loop (`while not done.all()`) waits for batch-mates
-        elif not any(td["action_mask"][r].tolist()):
-            ending = 2
-        else:
-            ending = 3
-        rows[r]["ending"] = ending
-        rows[r]["obs0"] = obs0[r]
-        rows[r]["crash"] = crash
-    return td, rows, shapes, raw_done
+            rows[r]["obs"].append(self.obs_fn(td, r))
+        self.k += 1
+        return True
+
+    def finish(self):
+        td, rows, B, extra = self.td, self.rows, self.B, self.extra
+        for r in range(B):
+            last_done = rows[r]["obs"][-1]["done"] if rows[r]["obs"] else False
+            first_done = next((k for k, o in enumerate(rows[r]["obs"], 1) if o["done"]), None)
+            if rows[r]["deviated"]:
+                ending = 3
+            elif last_done and first_done == len(rows[r]["acts"]):
+                ending = 0
+            elif last_done and len(rows[r]["acts"]) - first_done <= extra:
+                ending = 1          # continued on purpose by the harness
+            elif last_done:
+                ending = 4          # continued because rl4co's loop (`while not done.all()`) waits for batch-mates
+            elif not any(td["action_mask"][r].tolist()):
+                ending = 2
+            else:
+                ending = 3
+            rows[r]["ending"] = ending
+            rows[r]["obs0"] = self.obs0[r]
+            rows[r]["crash"] = self.crash
+        return td, rows, self.shapes, self.raw_done
+
+
+def drive(torch, env, td, rng, plans, obs_fn, extra_steps, max_steps):
+    """a whole rollout (see Roll).  Returns per-row records."""
+    roll = Roll(torch, env, td, rng, plans, obs_fn, extra_steps, max_steps)
+    while roll.step():
+        pass
+    return roll.finish()
 
 
 # ------------------------------------------------------------------------------------------------ FLP
@@ -282,6 +360,7 @@ def flp_td(torch, rows, qshape):
     return TensorDict({"locs": torch.tensor([r["locs"] for r in rows], dtype=torch.float32),
                        "orig_distances": torch.tensor([r["D"] for r in rows], dtype=torch.float32),
                        "distances": torch.tensor([r["dist0"] for r in rows], dtype=torch.float32),
+                       "chosen": torch.zeros(B, rows[0]["n"], dtype=torch.bool),      # as FLPGenerator emits it
                        "to_choose": tc}, batch_size=[B])
 
 
@@ -459,7 +538,7 @@ class Unit:
         self.dropped = 0
         self.forced_past_quota = []
 
-    def add(self, row, rec, reward, batch_info):
+    def add(self, row, rec, reward, batch_info, spec=True):
         ctx = self.ctx
         done_vals = [o["done"] for o in rec["obs"]] + [rec["obs0"]["done"]]
         meta = {"env": self.name, "row": row, "actions": rec["acts"], "ending": rec["ending"], "batch": batch_info,
@@ -486,7 +565,7 @@ class Unit:
         self.cases.append(case)
         self.meta.append(meta)
         try:
-            if rec["ending"] != 3:
+            if rec["ending"] != 3 and spec:
                 if self.name == "flp":
                     spec_flp(row, rec["ending"], rec["acts"], rec["obs"], reward)
                 elif self.name == "mcp":
@@ -515,8 +594,9 @@ class Unit:
             clean.append(r)
         meta = {"env": self.name, "row": clean[0], "actions": recs[0]["acts"], "ending": 3, "batch": batch_info, "reward": None,
                 "batch_rows": clean, "crash": dict(crash, where=where)}
-        self.spec_fail.append(("mask-admitted-step-raises" if where == "step" else "get_reward-raises-after-mask-admitted-episode",
-                               dict(crash, where=where), meta))
+        mech = {"step": "mask-admitted-step-raises", "reset": "reset-raises-on-instance-in-generator-format"}.get(
+            where, "get_reward-raises-after-mask-admitted-episode")
+        self.spec_fail.append((mech, dict(crash, where=where), meta))
         self.ctx.count("%s_raised_in_%s" % (self.name, where))
 
     def evaluate(self, case_type, check_fn, shard):
@@ -592,8 +672,22 @@ def run_flp(ctx, torch, rng, unit, n_batches, sizes, search_only=False, around=N
                 flp_run_batch(ctx, torch, rng, env, unit, [rows[0]], [last["actions"]], qshape, 0)
 
 
+def reset_or_crash(envname, env, unit, inst_td, rows, info):
+    """env.reset on a hand-built instance in generator format; an exception is a failing input of its own"""
+    check_instance_format(envname, env, inst_td)
+    try:
+        return env.reset(inst_td)
+    except Exception as e:
+        recs = [{"acts": [], "crash": {"error": "%s: %s" % (type(e).__name__, str(e)[:300]), "actions_so_far": [[] for _ in rows],
+                                      "actions": []}} for _ in rows]
+        unit.crashed(rows, recs, info, "reset")
+        return None
+
+
 def flp_run_batch(ctx, torch, rng, env, unit, rows, plans, qshape, extra):
-    td = env.reset(flp_td(torch, rows, qshape))
+    td = reset_or_crash("flp", env, unit, flp_td(torch, rows, qshape), rows, {"B": len(rows), "to_choose_shape": qshape, "extra_steps": extra})
+    if td is None:
+        return
     td, recs, shapes, raw = drive(torch, env, td, rng, plans, flp_obs, extra, rows[0]["n"] + 3)
     info = {"B": len(rows), "to_choose_shape": qshape, "extra_steps": extra}
     if recs[0]["crash"]:
@@ -668,7 +762,9 @@ def run_mcp(ctx, torch, rng, unit, n_batches, sizes, around=None):
 
 
 def mcp_run_batch(ctx, torch, rng, env, unit, rows, plans, extra):
-    td = env.reset(mcp_td(torch, rows))
+    td = reset_or_crash("mcp", env, unit, mcp_td(torch, rows), rows, {"B": len(rows), "extra_steps": extra})
+    if td is None:
+        return
     td, recs, shapes, raw = drive(torch, env, td, rng, plans, mcp_obs, extra, rows[0]["ns"] + 3)
     info = {"B": len(rows), "extra_steps": extra}
     if recs[0]["crash"]:
@@ -740,7 +836,9 @@ def run_eda(ctx, torch, rng, unit, envname, n_batches, sizes):
 
 
 def eda_run_batch(ctx, torch, rng, env, unit, rows, plans, extra):
-    td = env.reset(eda_td(torch, rows))
+    td = reset_or_crash(rows[0]["env"], env, unit, eda_td(torch, rows), rows, {"B": len(rows), "extra_steps": extra})
+    if td is None:
+        return
     td, recs, shapes, raw = drive(torch, env, td, rng, plans, eda_obs, extra, rows[0]["q"] + 3)
     if recs[0]["crash"]:
         unit.crashed(rows, recs, {"B": len(rows), "extra_steps": extra}, "step")
@@ -761,6 +859,341 @@ def eda_bfs(ctx, torch, rng, unit, envname):
             continue
         ctx.count("%s_bfs_sequences" % envname, len(seqs))
         eda_run_batch(ctx, torch, rng, env, unit, [row] * len(seqs), seqs, 0)
+
+
+# ------------------------------------------------------------------------------------------------ repeated episodes
+# Episodes on one instance must not see each other (Coq: Env/SelectionStore.v, *_store_refines).  "The instance" =
+# the tensors the caller built.  Scenarios (B = 1..3 rows, equal quotas):
+#   seq_views          reset(view1) -> full episode -> reset(view2) -> second episode, other order; view_i are fresh
+#                      shallow TensorDicts over the very same tensor objects (no clone anywhere)
+#   seq_same_object    td = one TensorDict; env.reset(td) -> episode -> env.reset(td) AGAIN on the same object ->
+#                      second episode.  torchrl's reset returns `td` itself updated in place and rl4co's step keeps
+#                      updating it, so what the second _reset is handed is the container's *current* content: it is
+#                      re-read just before the second reset and is the instance the model is run on
+#   interleaved_views  two env objects, two views, steps taken alternately
+#   interleaved_copies one reset, two shallow td.copy() of the reset state stepped alternately
+# Every episode goes to the Coq row model like any first episode; besides, on the implementation alone, (a) every
+# observable is compared with the row model's prediction computed here and (b) the caller's tensors must be
+# bit-identical afterwards.  A difference that disappears when the same actions are replayed solo on cloned
+# tensors is a leak between episodes.
+SIG_LEAK = "%s: episode-state-leaks-into-instance-or-next-episode"
+SCENARIOS = ("seq_views", "seq_same_object", "interleaved_views", "interleaved_copies")
+
+
+def tensor_bits(torch, t):
+    """the raw bytes of a tensor (bit-identity, not numeric equality: -0.0 / NaN payloads count)"""
+    flat = t.detach().contiguous().view(-1)
+    return flat.to(torch.uint8) if t.dtype == torch.bool else flat.view(torch.uint8)
+
+
+def inst_td_of(torch, envname, rows, qshape):
+    if envname == "flp":
+        return flp_td(torch, rows, qshape)
+    if envname == "mcp":
+        return mcp_td(torch, rows)
+    return eda_td(torch, rows)
+
+
+def obs_fn_of(envname):
+    return {"flp": flp_obs, "mcp": mcp_obs}.get(envname, eda_obs)
+
+
+def max_steps_of(envname, row):
+    return {"flp": lambda: row["n"] + 3, "mcp": lambda: row["ns"] + 3}.get(envname, lambda: row["q"] + 3)()
+
+
+def reread_rows(envname, td, rows):
+    """the instance a _reset handed `td` now would read (same row format as the *_make_row functions)"""
+    out = []
+    for r, row in enumerate(rows):
+        if envname == "flp":
+            new = dict(row, kind="reread", locs=td["locs"][r].tolist(), D=td["orig_distances"][r].tolist(),
+                       dist0=td["distances"][r].tolist(), q=int(td["to_choose"].reshape(len(rows), -1)[r, 0]))
+        elif envname == "mcp":
+            new = dict(row, kind="reread", mem=td["membership"][r].tolist(), w=td["weights"][r].tolist(),
+                       q=int(td["n_sets_to_choose"].reshape(len(rows), -1)[r, 0]))
+        else:
+            probe = td["probe"][r].tolist()
+            new = dict(row, kind="reread", avail=td["action_mask"][r].tolist(), probe=probe[0] if envname == "dpp" else probe)
+        out.append(new)
+    return out
+
+
+def py_expected(row, acts):
+    """what the row model (Env/FLP.v, MCP.v, DPP.v) predicts for these actions: [obs after reset, obs after each
+    step], reward (None: not part of C08).  Exact: only min / 0-1 products of the instance's own float values."""
+    env = row["env"]
+    out = []
+    if env == "flp":
+        n, D, q = row["n"], row["D"], row["q"]
+        for k in range(len(acts) + 1):
+            pre = acts[:k]
+            ch = [c in pre for c in range(n)]
+            out.append({"mask": [not x for x in ch], "done": k >= q if k else False, "chosen": ch,
+                        "dist": [min(D[a][p] for a in pre) for p in range(n)] if pre else list(row["dist0"])})
+        rew = -sum(min(Fraction(D[a][p]) for a in acts) for p in range(n)) if acts else None
+        return out, rew
+    if env == "mcp":
+        mem, w, q = row["mem"], row["w"], row["q"]
+        ns, ni = len(mem), len(w)
+        for k in range(len(acts) + 1):
+            pre = acts[:k]
+            ch = [c in pre for c in range(ns)]
+            ids = {int(x) for a in pre for x in mem[a] if x != 0}
+            out.append({"mask": [not x for x in ch], "done": k >= q if k else False, "chosen": ch,
+                        "weights": [0.0 if (j + 1) in ids else w[j] for j in range(ni)],
+                        "membership": [[0.0] * len(mem[c]) if c in pre else list(mem[c]) for c in range(ns)]})
+        ids = {int(x) for a in acts for x in mem[a] if x != 0}
+        return out, sum(Fraction(w[j]) for j in range(ni) if (j + 1) in ids)
+    avail, q = row["avail"], row["q"]
+    n = len(avail)
+    allowed0 = list(avail) if env == "dpp" else [avail[c] and not row["probe"][c] for c in range(n)]
+    for k in range(len(acts) + 1):
+        pre = acts[:k]
+        out.append({"mask": [allowed0[c] and c not in pre for c in range(n)], "done": k >= q if k else False,
+                    "keepout": [not x for x in avail]})
+    return out, None
+
+
+def first_difference(row, rec, reward):
+    """first observable of one recorded episode that is not what the row model predicts (None: all agree)"""
+    if rec.get("crash"):
+        return {"step": rec["crash"].get("step"), "observable": "exception", "observed": rec["crash"].get("error"), "expected": "no exception"}
+    exp, exp_rew = py_expected(row, rec["acts"])
+    for k, (e, o) in enumerate(zip(exp, [rec["obs0"]] + rec["obs"])):
+        for key in ("mask", "done", "chosen", "dist", "weights", "membership", "keepout"):
+            if key in e and e[key] != o[key]:
+                return {"step": k, "observable": key, "expected": e[key], "observed": o[key], "actions_so_far": rec["acts"][:k]}
+    if exp_rew is not None and reward is not None and abs(Fraction(reward) - exp_rew) > row.get("tol", 0):
+        return {"step": len(rec["acts"]), "observable": "reward", "expected": float(exp_rew), "observed": reward}
+    return None
+
+
+def episode_rewards(torch, envname, env, td, recs):
+    if envname not in ("flp", "mcp") or not recs[0]["acts"] or len({len(r["acts"]) for r in recs}) != 1:
+        return [None] * len(recs)
+    try:
+        return env.get_reward(td, torch.tensor([r["acts"] for r in recs], dtype=torch.int64)).tolist()
+    except Exception as e:
+        for r in recs:
+            r["crash"] = r.get("crash") or {"step": len(r["acts"]), "error": "get_reward: %s: %s" % (type(e).__name__, str(e)[:200])}
+        return [None] * len(recs)
+
+
+class ResetRaised(Exception):
+    pass
+
+
+def run_scenario(torch, rng, envname, envs, rows, qshape, scenario, plans1, plans2, inst=None):
+    """runs one scenario on the real env(s); `inst` = the instance TensorDict to use as it is (generator output)
+    instead of one built from `rows`.  Returns {"episodes": [(label, expected_rows, recs, rewards)], "mutated": [keys],
+    "container": [per-row dict of instance keys whose container entry changed], "error": str|None}."""
+    from tensordict import TensorDict
+    env, env2 = envs
+    B = len(rows)
+    if inst is None:
+        inst = inst_td_of(torch, envname, rows, qshape)
+        check_instance_format(envname, env, inst)
+    T = dict(inst.items())                                   # the caller's tensors (objects kept, never cloned)
+    snap = {k: v.clone() for k, v in T.items()}
+    view = lambda: TensorDict(dict(T), batch_size=[B])       # fresh container, same tensor objects
+    obs_fn, ms = obs_fn_of(envname), max_steps_of(envname, rows[0])
+    res = {"episodes": [], "mutated": [], "container": [], "error": None}
+    plans1 = plans1 or [None] * B
+
+    def reset(env_, td0, label):
+        try:
+            return env_.reset(td0)
+        except Exception as e:          # only the implementation's own exception; harness errors propagate
+            raise ResetRaised("reset of episode %s: %s: %s" % (label, type(e).__name__, str(e)[:300]))
+
+    def whole(env_, td0, plans, label, exp_rows):
+        td = reset(env_, td0, label)
+        td, recs, _, _ = drive(torch, env_, td, rng, plans, obs_fn, 0, ms)
+        res["episodes"].append((label, exp_rows, recs, episode_rewards(torch, envname, env_, td, recs)))
+        return recs
+    try:
+        if scenario == "seq_views":
+            recs = whole(env, view(), plans1, "first", rows)
+            whole(env, view(), plans2 or [list(reversed(r["acts"])) for r in recs], "second", rows)
+        elif scenario == "seq_same_object":
+            td_obj = view()
+            recs = whole(env, td_obj, plans1, "first", rows)
+            now = reread_rows(envname, td_obj, rows)
+            for r, (a, b) in enumerate(zip(rows, now)):
+                ch = sorted(k for k in b if k not in ("kind",) and a.get(k) != b[k])
+                res["container"].append(ch)
+            whole(env, td_obj, plans2 or [None] * B, "second (same TensorDict object)", now)   # a fresh random walk
+        else:
+            plans2 = plans2 or [None] * B
+            if scenario == "interleaved_views":
+                ta, tb = reset(env, view(), "A"), reset(env2, view(), "B")
+                ea, eb = env, env2
+            else:
+                t0 = reset(env, view(), "A/B")
+                ta, tb = t0.copy(), t0.copy()                # shallow: the two rollouts share every tensor of the reset state
+                ea = eb = env
+            ra = Roll(torch, ea, ta, rng, plans1, obs_fn, 0, ms)
+            rb = Roll(torch, eb, tb, rng, plans2, obs_fn, 0, ms)
+            go = True
+            while go:
+                x = ra.step()
+                y = rb.step()
+                go = x or y
+            for label, env_, roll in (("A", ea, ra), ("B", eb, rb)):
+                td, recs, _, _ = roll.finish()
+                res["episodes"].append((label, rows, recs, episode_rewards(torch, envname, env_, td, recs)))
+    except ResetRaised as e:
+        res["error"] = str(e)
+    for k in T:
+        if T[k].shape != snap[k].shape or not torch.equal(tensor_bits(torch, T[k]), tensor_bits(torch, snap[k])):
+            res["mutated"].append(k)
+    return res
+
+
+def scenario_verdict(torch, rng, envname, envs, rows, qshape, scenario, res):
+    """None, or the replay object of a leak: caller tensors mutated, or an episode differs from the row model while
+    the same actions replayed solo on cloned tensors (control) agree with it."""
+    clean = [{k: v for k, v in r.items() if k != "tol"} for r in rows]
+    acts = {label: [list(r["acts"]) for r in recs] for label, _, recs, _ in res["episodes"]}
+    obj = {"kind": "repeat", "env": envname, "scenario": scenario, "rows": clean, "to_choose_shape": qshape,
+           "actions": acts, "mutated_instance_tensors": res["mutated"], "error": res["error"]}
+    diffs = []
+    for label, exp_rows, recs, rews in res["episodes"]:
+        for r, (row, rec, rw) in enumerate(zip(exp_rows, recs, rews)):
+            d = first_difference(row, rec, rw)
+            if d is not None:
+                diffs.append((label, r, row, rec, d))
+    leak = None
+    for label, r, row, rec, d in diffs:
+        try:                # control: the same row and actions, solo, on freshly built tensors
+            td = envs[0].reset(inst_td_of(torch, envname, [dict(row)], qshape))
+            td, crecs, _, _ = drive(torch, envs[0], td, rng, [rec["acts"]], obs_fn_of(envname), 0, len(rec["acts"]))
+            crew = episode_rewards(torch, envname, envs[0], td, crecs)
+            cd = first_difference(row, crecs[0], crew[0]) if crecs[0]["acts"] == rec["acts"] else {"observable": "actions", "observed": crecs[0]["acts"], "expected": rec["acts"]}
+        except Exception as e:
+            cd = {"observable": "exception", "observed": "%s: %s" % (type(e).__name__, str(e)[:200])}
+        if cd is None:
+            leak = dict(d, episode=label, row=r)
+            break
+    if leak is None and res["error"]:
+        # the reset of a later episode raised: a leak iff a first reset of the same data, freshly built, does not
+        try:
+            envs[0].reset(inst_td_of(torch, envname, [dict(r) for r in rows], qshape))
+            leak = {"episode": "?", "observable": "exception", "observed": res["error"],
+                    "expected": "no exception (a fresh reset of the same data does not raise)"}
+        except Exception:
+            pass
+    if leak is None and not res["mutated"]:
+        return None, diffs
+    obj["first_difference"] = leak
+    obj["what"] = ("episodes on one instance see each other: " +
+                   ("the caller's tensors %s were written in place; " % res["mutated"] if res["mutated"] else "") +
+                   ("episode %s differs from the row model at step %s in %s although the same actions on cloned tensors agree" % (
+                       leak.get("episode"), leak.get("step"), leak.get("observable")) if leak else ""))
+    return obj, diffs
+
+
+def repeat_stream(ctx, torch, rng, units, n_per_env, sizes):
+    from rl4co.envs.graph.flp.env import FLPEnv
+    from rl4co.envs.graph.mcp.env import MCPEnv
+    from rl4co.envs.graph.flp.generator import FLPGenerator
+    from rl4co.envs.graph.mcp.generator import MCPGenerator
+    flp_envs = (FLPEnv(check_solution=False), FLPEnv(check_solution=False))
+    mcp_envs = (MCPEnv(check_solution=False), MCPEnv(check_solution=False))
+    stats = {"scenarios": 0, "episodes": 0, "leaks": 0, "tensor_mutations": 0}
+    oos = {}
+    found = {}
+    for envname in ("flp", "mcp", "dpp", "mdpp"):
+        unit = units[envname]
+        eda_envs = {}
+        for b in range(n_per_env):
+            scenario = SCENARIOS[b % len(SCENARIOS)]
+            B = 1 + (b // len(SCENARIOS)) % 3
+            qshape = "B1" if b % 3 == 0 else "B"
+            use_gen = (b // len(SCENARIOS)) % 3 == 1          # the generator's own TensorDict, tensors as it made them
+            gen_td = None
+            if envname == "flp":
+                n = rng.choice(sizes)
+                q = rng.randint(1, n)
+                envs = flp_envs
+                if use_gen:
+                    gen_td = FLPGenerator(num_loc=n, to_choose=q)(batch_size=[B])
+                    qshape = "B"
+                    rows = [flp_make_row(torch, rng, "gen", n, q, gen_td, k) for k in range(B)]
+                else:
+                    rows = [flp_make_row(torch, rng, rng.choice(["points", "dyadic", "asym"]), n, q) for _ in range(B)]
+            elif envname == "mcp":
+                ns, ni = rng.choice(sizes), rng.choice(sizes)
+                q = rng.randint(1, ns)
+                envs = mcp_envs
+                if use_gen:
+                    try:
+                        gen_td = MCPGenerator(num_items=ni, num_sets=ns, min_size=1, max_size=rng.randint(1, min(4, ni)),
+                                              n_sets_to_choose=q)(batch_size=[B])
+                        rows = [mcp_make_row(torch, rng, "gen", ns, ni, q, gen_td, k) for k in range(B)]
+                    except Exception:          # MCPGenerator's own shape bug on small sizes (outside C08, see notes)
+                        ctx.count("mcp_generator_raised")
+                        gen_td = None
+                if gen_td is None:
+                    rows = [mcp_make_row(torch, rng, rng.choice(["pad_end", "holes", "dups"]), ns, ni, q) for _ in range(B)]
+                    width = max(len(x) for r in rows for x in r["mem"])
+                    for r in rows:
+                        r["mem"] = [x + [0.0] * (width - len(x)) for x in r["mem"]]
+            else:
+                size = rng.choice([3, 3, 4])
+                q = rng.randint(1, 3)
+                if (size, q) not in eda_envs:
+                    pair = (eda_env(envname, size, q, kmin=1, kmax=max(2, size * size // 2)), eda_env(envname, size, q))
+                    for e in pair:
+                        e.max_decaps = q
+                    eda_envs[(size, q)] = pair
+                envs = eda_envs[(size, q)]
+                if use_gen:
+                    gen_td = envs[0].generator(batch_size=[B])
+                    rows = [eda_make_row(torch, rng, "gen", envname, size, q, gen_td, k) for k in range(B)]
+                else:
+                    rows = [eda_make_row(torch, rng, rng.choice(["sparse", "none", "rows"]), envname, size, q) for _ in range(B)]
+            if gen_td is not None:
+                ctx.count("repeat_%s_on_generator_tensordict" % envname)
+            res = run_scenario(torch, rng, envname, envs, rows, qshape, scenario, [None] * B, None if b % 2 == 0 else [None] * B,
+                               inst=gen_td)
+            obj, diffs = scenario_verdict(torch, rng, envname, envs, rows, qshape, scenario, res)
+            stats["scenarios"] += 1
+            ctx.count("repeat_%s_%s" % (envname, scenario))
+            if res["mutated"]:
+                stats["tensor_mutations"] += 1
+            differing = {(label, r) for label, r, _, _, _ in diffs}
+            info = {"B": B, "extra_steps": 0, "repeat": scenario}
+            if envname == "flp":
+                info["to_choose_shape"] = qshape
+            for label, exp_rows, recs, rews in res["episodes"]:
+                for r, (row, rec, rw) in enumerate(zip(exp_rows, recs, rews)):
+                    stats["episodes"] += 1
+                    if not rec["acts"] and not rec.get("crash"):
+                        continue
+                    if (envname in ("flp", "mcp")) and rw is None:
+                        continue
+                    # leaks are reported below under their own signature, not as a solo-episode failure
+                    unit.add(row, rec, rw, dict(info, episode=label), spec=not (obj is not None and (label, r) in differing))
+            if scenario == "seq_same_object" and any(res["container"]):
+                o = oos.setdefault(envname, {"env": envname, "scenarios": 0, "instance_entries_replaced_by_episode_state": set(), "example": None})
+                o["scenarios"] += 1
+                for ch in res["container"]:
+                    o["instance_entries_replaced_by_episode_state"].update(ch)
+                if o["example"] is None:
+                    label, exp_rows, recs, _ = res["episodes"][-1]
+                    o["example"] = {"original_row": {k: v for k, v in rows[0].items() if k not in ("tol", "locs", "D")},
+                                    "first_episode_actions": res["episodes"][0][2][0]["acts"],
+                                    "row_read_by_second_reset": {k: v for k, v in exp_rows[0].items() if k not in ("tol", "locs", "D")}}
+            if obj is not None:
+                stats["leaks"] += 1
+                size_ = sum(len(a) for v in obj["actions"].values() for a in v) * 100 + len(json.dumps(obj["rows"], default=str))
+                if envname not in found or size_ < found[envname][0]:
+                    found[envname] = (size_, obj)
+    for o in oos.values():
+        o["instance_entries_replaced_by_episode_state"] = sorted(o["instance_entries_replaced_by_episode_state"])
+    return stats, found, list(oos.values())
 
 
 # ------------------------------------------------------------------------------------------------ known mechanisms
@@ -857,6 +1290,10 @@ def run(ctx: Ctx, proofs_ok: bool):
                 "generator's [B] and the documented [B,1] shape.  Orders: uniform random walks in the implementation's mask, "
                 "run in mixed batches of 2..6 rows and solo (B=1, replaying a batched row's actions), every 7th batch continued "
                 "2 steps past done; all admitted orders (every q-permutation) of instances with 3..4 items (EDA: up to 400) as one batch.  "
+                "Repeated episodes on ONE instance (12 scenarios per env, thorough 32; B=1..3): two full episodes one after the other on "
+                "fresh shallow TensorDicts over the very same tensors and on the very same TensorDict object (env.reset(td) twice), two "
+                "rollouts stepped alternately (two env objects / two shallow copies of one reset state), second order = reverse of the "
+                "first or an independent random walk; caller tensors compared bit for bit afterwards.  "
                 "non-trivial = at least 2 steps and at least one step with more than one admitted item; distinct by hash of "
                 "(instance, actions, batch size)")
     ctx.assumptions += [
@@ -865,6 +1302,11 @@ def run(ctx: Ctx, proofs_ok: bool):
         "MCP item ids are integers in 0..n_items (ids above n_items raise in the code = model None; negative ids wrap in torch and are outside the format)",
         "DPP: the generator's action_mask excludes the probing port (DPPEnv itself never looks at td['probe']); hand-built instances respect this",
         "FLP reward is a float32 sum: compared exactly on the exact stream, with relative tolerance 1e-5 on generator data",
+        "the instance of an episode is what _reset is handed: tensors built by the caller; torchrl's reset(td)/rl4co's step update the "
+        "caller's TensorDict CONTAINER in place (library contract), so for a second env.reset(td) on the same object the instance is the "
+        "container's content at that time (re-read by the harness); the caller's TENSORS must never change (checked bit for bit)",
+        "store model (Env/SelectionStore.v): one selection tensor per env (chosen / action_mask); MCP membership / weights follow the "
+        "same pattern (reset keeps the caller's tensor, step multiplies out of place) and are covered by the bit-identity check only",
         "the decap simulator (DPP/MDPP reward) is not part of C08 and not modelled; synthetic .npy chip data only serve to construct the classes",
     ]
     ctx.trusted.append("torch broadcasting / indexing semantics used by the four envs (scatter, nonzero, index_put, gather, min)")
@@ -883,6 +1325,30 @@ def run(ctx: Ctx, proofs_ok: bool):
     eda_bfs(ctx, torch, rng, units["dpp"], "dpp")
     run_eda(ctx, torch, rng, units["mdpp"], "mdpp", nb // 2, eda_sizes)
     eda_bfs(ctx, torch, rng, units["mdpp"], "mdpp")
+    # ---- repeated / interleaved episodes on one instance (their episodes join the four units' cases)
+    rep_stats, rep_found, rep_oos = repeat_stream(ctx, torch, rng, units, 32 if thorough else 12, [3, 4, 5, 6, 8])
+    ctx.units["repeated_episodes_on_one_instance"] = dict(rep_stats, scenario_kinds=list(SCENARIOS),
+                                                          caller_tensors_checked_bit_identical=True)
+    if rep_oos:
+        ctx.extra["out_of_scope_observations"] = [{
+            "observation": "second env.reset(td) on the same TensorDict object starts from the first episode's end state",
+            "mechanism": (
+                "torchrl's EnvBase.reset(td) returns the caller's TensorDict object updated in place and rl4co's step keeps updating "
+                "that same object, so after an episode the caller's CONTAINER holds the end-of-episode state under the instance's own "
+                "keys (no tensor is written in place: checked bit for bit).  _reset reads the instance from these keys, hence a second "
+                "env.reset(td) on the same object runs on the leftovers of the first episode (MCP: zeroed membership rows / weights, "
+                "also as orig_membership / orig_weights of the reward; DPP/MDPP: the first episode's cells masked out and shown as "
+                "keep-out; FLP: the first episode's distances as the reset observation)."),
+            "why_out_of_scope": ("library contract of torchrl's reset; C08 is about one mask-confined episode on the instance _reset is "
+                                 "handed.  The second episode is compared with the model on the container's content at the time of the "
+                                 "second reset, and agrees.  Callers must keep their own copy (td.clone())."),
+            "model_side": "Properties/C08.v C08_dpp_second_reset_of_the_same_tensordict_object_refuted (why no_same is a hypothesis)",
+            "proposed_signature_if_ever_raised": "<env>: second-reset-of-same-tensordict-runs-on-previous-episode-leftovers",
+            "per_env": rep_oos}]
+        ctx.notes.append("out of scope, observed: env.reset(td) twice on the same TensorDict object starts the second episode from the "
+                         "first one's end state for %s (torchrl updates the caller's container in place; rl4co's _reset reads the "
+                         "instance from keys its _step overwrites).  Callers must keep their own copy (td.clone()) -- see "
+                         "out_of_scope_observations in the evidence" % ", ".join(sorted(o["env"] for o in rep_oos)))
     if "mcp_generator_errors" in ctx.extra:
         ctx.extra["mcp_generator_errors"] = sorted(ctx.extra["mcp_generator_errors"])
         ctx.notes.append("MCPGenerator raised on some small shapes (cutoffs_masks uses self.max_size, membership the sampled "
@@ -939,9 +1405,17 @@ def run(ctx: Ctx, proofs_ok: bool):
         ctx.broken.append("correspondence C08/done_bxb: td['done'] of a batch differs from the modelled [B]>=[B,1] broadcast")
     ctx.evaluations += len(qcodes) + len(dcodes)
 
+    for envname, msg in sorted(FORMAT_PROBLEMS.items()):
+        ctx.broken.append("correspondence C08/%s: hand-built instances are not in the generator's format: %s" % (envname, msg))
+    ctx.extra["generator_format_seen"] = {key[0]: {kk: list(vv) for kk, vv in v.items()} for key, v in _SCHEMA.items()}
+
     # ---- decision: concrete failures of the property on the implementation
     n_fail = 0
     n_stream_fail = 0
+    for envname, (_, obj) in sorted(rep_found.items()):
+        n_fail += 1
+        n_stream_fail += 1
+        ctx.failure(SIG_LEAK % envname, obj, tag=envname + "-repeat")
     for name in ("flp", "mcp", "dpp", "mdpp"):
         best = {}
         for mech, detail, meta in units[name].spec_fail:
@@ -1005,6 +1479,10 @@ def search(ctx, torch, rng, units):
     run_eda(ctx, torch, rng, s_units["mdpp"], "mdpp", 60, [2, 3, 4, 10])
     eda_bfs(ctx, torch, rng, s_units["mdpp"], "mdpp")
     found = 0
+    rep_stats, rep_found, _ = repeat_stream(ctx, torch, rng, s_units, 48, [3, 4, 5, 6, 8, 10])
+    for envname, (_, obj) in sorted(rep_found.items()):
+        found += 1
+        ctx.failure(SIG_LEAK % envname, dict(obj, found_by="search after a broken obligation", broken=ctx.broken[:3]), tag=envname + "-repeat")
     for name, u in s_units.items():
         best = {}
         for mech, detail, meta in u.spec_fail:
@@ -1046,6 +1524,40 @@ def replay(obj):
         bad = rec["env_max_decaps"] != rec["generator_max_decaps"]
         print("still fails" if bad else "no longer fails")
         return 1 if bad else 0
+    if kind == "repeat":
+        import random
+        from rl4co.envs.graph.flp.env import FLPEnv
+        from rl4co.envs.graph.mcp.env import MCPEnv
+        envname, scenario, qshape = obj["env"], obj["scenario"], obj.get("to_choose_shape", "B")
+        rows = [dict(r) for r in obj["rows"]]
+        for r in rows:
+            if envname == "flp":
+                r["tol"] = Fraction(0) if r.get("exact") else Fraction(1, 10 ** 5) * 100
+        if envname == "flp":
+            envs = (FLPEnv(check_solution=False), FLPEnv(check_solution=False))
+        elif envname == "mcp":
+            envs = (MCPEnv(check_solution=False), MCPEnv(check_solution=False))
+        else:
+            envs = (eda_env(envname, rows[0]["size"], rows[0]["q"]), eda_env(envname, rows[0]["size"], rows[0]["q"]))
+            for e in envs:
+                e.max_decaps = rows[0]["q"]
+        acts = obj["actions"]
+        labels = list(acts)
+        plans1 = acts[labels[0]] if labels else [None] * len(rows)
+        plans2 = acts[labels[1]] if len(labels) > 1 else None
+        rng = random.Random(0)
+        res = run_scenario(torch, rng, envname, envs, rows, qshape, scenario, plans1, plans2)
+        new, diffs = scenario_verdict(torch, rng, envname, envs, rows, qshape, scenario, res)
+        print("scenario:", scenario, "| rows:", len(rows), "| recorded actions:", json.dumps(acts))
+        print("recorded:", json.dumps({"mutated_instance_tensors": obj.get("mutated_instance_tensors"),
+                                       "first_difference": obj.get("first_difference")}, default=str)[:1500])
+        for label, _, recs, rews in res["episodes"]:
+            print("on the current tree, episode %-32s actions %s reward %s" % (label, [r["acts"] for r in recs], rews))
+        if new is not None:
+            print("on the current tree: caller tensors written in place:", new["mutated_instance_tensors"])
+            print("on the current tree: first difference:", json.dumps(new["first_difference"], default=str)[:1500])
+        print("still fails" if new is not None else "no longer fails (episodes on one instance are independent, caller tensors bit-identical)")
+        return 1 if new is not None else 0
     if kind == "batch_crash":
         import random
         rows = [dict(r) for r in obj["batch_rows"]]
